@@ -153,6 +153,18 @@ func (g *vfGen) genC17() {
 			}
 		}
 	}
+	// a table whose header declares fewer bytes than the file has (sector padding, appended memo data)
+	{
+		dbf := make([]byte, 600)
+		copy(dbf, []byte{0x03, 0x7B, 7, 21, 2, 0, 0, 0, 65, 0, 10, 0})
+		copy(dbf[32:], "NAME")
+		dbf[64] = 0x0D
+		for _, l1 := range []int{12, 32, 68, 85, 86, 87} {
+			for _, l2 := range []int{0, 88, 200, 600, 601} {
+				g.emit(vfOp("mono", dbf, l1, l2))
+			}
+		}
+	}
 	// the formats tree.go documents as sharing their first bytes with another one
 	heads = append(heads,
 		append([]byte("\x00\x01\x00\x00Standard Jet DB\x00"), make([]byte, 40)...),
